@@ -2,7 +2,7 @@
    Property theorems only (tree level; every view operation of the model is a composition of
    getter / setter / root / children, and the view level is tied by the correspondence).
    summ n m : n is m with some subtrees replaced by RootN (root subtree). *)
-Require Import RM.Base RM.Gindex RM.Tree RM.TreeProofs RM.Types RM.ModelCodec RM.ModelMut RM.PartialProofs RM.PartialViews RM.ModelStore RM.PartialStore.
+Require Import RM.Base RM.Gindex RM.Tree RM.TreeProofs RM.Types RM.Spec RM.ModelViews RM.ModelCodec RM.ModelMut RM.ModelIters RM.ModelObj RM.PartialProofs RM.PartialViews RM.ModelStore RM.PartialStore RM.ReprProofs RM.ObjProofs RM.PartialReads.
 
 Theorem C17_root : forall H n m, summ H n m -> root H n = root H m.
 Proof. exact summ_root. Qed.
@@ -140,3 +140,34 @@ Print Assumptions C17_encoding.
 Print Assumptions C17_store_start.
 Print Assumptions C17_store_command.
 Print Assumptions C17_store_observed.
+
+(* ---- the read-only iterators and object export over partial trees (PartialReads.v) ---- *)
+(* the node iterator (element / field views): every bottom node handed out on the partial tree is (a summary of)
+   the node the complete tree hands out at that step; a step that needs an excluded subtree fails *)
+Theorem C17_node_iter : forall H src n m depth len ns, summ H n m -> node_iter src n depth len = Ok ns ->
+  exists ms, node_iter src m depth len = Ok ms /\ Forall2 (summ H) ns ms.
+Proof. intros H src n m depth len ns Hs Hn. exact (psim_ok _ _ _ ns (p_node_iter H src n m depth len Hs) Hn). Qed.
+
+(* the packed-element and bit iterators: whenever both trees answer, the answers are equal (the complete side of a
+   tree that represents a value always answers: C15) *)
+Theorem C17_packed_iter : forall H src n m depth len e size xs ys, summ H n m ->
+  packed_iter H src n depth len e size = Ok xs -> packed_iter H src m depth len e size = Ok ys -> xs = ys.
+Proof. intros H src n m depth len e size xs ys Hs. exact (ag_packed_iter H src n m depth len e size Hs xs ys). Qed.
+Theorem C17_bit_iter : forall H src n m depth len xs ys, summ H n m ->
+  bit_iter H src n depth len = Ok xs -> bit_iter H src m depth len = Ok ys -> xs = ys.
+Proof. intros H src n m depth len xs ys Hs. exact (ag_bit_iter H src n m depth len Hs xs ys). Qed.
+
+(* object export: an export that succeeds on a partial version of a tree representing value v is the export of
+   the complete tree, and importing it gives back v's freshly constructed backing *)
+Theorem C17_export : forall H src t n m o o', summ H n m -> to_obj H src t n = Ok o -> to_obj H src t m = Ok o' -> o = o'.
+Proof. intros H src t n m o o' Hs. exact (ag_to_obj H src t n m Hs o o'). Qed.
+Theorem C17_export_is_value : forall H src t v n m n0 o, wf_ty t = true -> fields_ok t = true -> wf t v = true ->
+  Repr H t v m -> mk H t v = Ok n0 -> summ H n m -> to_obj H src t n = Ok o ->
+  to_obj H src t m = Ok o /\ from_obj H t o = Ok n0.
+Proof. exact partial_export_is_value. Qed.
+
+Print Assumptions C17_node_iter.
+Print Assumptions C17_packed_iter.
+Print Assumptions C17_bit_iter.
+Print Assumptions C17_export.
+Print Assumptions C17_export_is_value.
